@@ -73,6 +73,7 @@ struct J {
   std::map<std::string, J> o;
   const J &operator[](const char *k) const { static J nul; auto it = o.find(k); return it == o.end() ? nul : it->second; }
   const J &operator[](size_t i) const { return a[i]; }
+  const J &operator[](int i) const { return a[(size_t)i]; }
   bool has(const char *k) const { return o.count(k) > 0; }
   size_t size() const { return t == ARR ? a.size() : o.size(); }
   std::vector<int> ints() const { std::vector<int> r; for (auto &x : a) r.push_back((int)x.n); return r; }
